@@ -50,6 +50,8 @@ def n0_n1():
     out.append(Case("N1-arity3", {"reactions": [rx(["H", "H", "H"], ["H2", "H"])], "network": {}}))
     out.append(Case("N1-noproduct", {"reactions": [rx(["H", "C"], [])], "network": {}}))
     out.append(Case("N1-required", {"reactions": [rx(["H", "H"], ["H2"])], "network": {"required_species": ["He", "C"]}}))
+    # required species that also react (same spelling, the other electron spelling, listed twice) next to one that does not
+    out.append(Case("N1-required-overlap", {"reactions": [rx(["H", "H"], ["H2"]), rx(["H", "e-"], ["H-"]), rx(["H2", "CR"], ["H", "H"], t=101)], "network": {"required_species": ["H2", "E", "He", "H2"]}}))
     out.append(Case("N1-catalyst", {"reactions": [rx(["H", "C"], ["H", "O"]), rx(["O"], ["C"])], "network": {}}))
     out.append(Case("N1-pseudo", {"reactions": [rx(["H2", "CR"], ["H", "H"], t=101), rx(["CO", "PHOTON"], ["C", "O"], t=102, c=2.0), rx(["H", "CRPHOT"], ["H+", "e-"], t=120, c=1.0), rx(["H", "Photon"], ["H+", "E"], t=102)], "network": {}}))
     return out
